@@ -240,6 +240,34 @@ def names_gen(tier):
     return gen
 
 
+# explicit programs around what error@1 shows once everything is handled, and around clauses that share a name
+EXPLICIT7 = [
+    ("error-after-raising-handler", 'begin begin begin raise a; exception when a then raise b; end; exception when b then print "in B: " error@1; end; print "after: [" error@1 "]"; '
+     'exception when others then print "x"; end; print "top: [" error@1 "]";', "in B: B\nafter: []\ntop: []\n"),
+    ("error-after-raising-handler-in-function", 'function fh() return integer is begin begin raise a; exception when a then raise b; end; return 1; end; '
+     'begin zz = fh(); exception when b then print "caught " error@1; end; print "[" error@1 "]"; begin zz = 1 / 0; exception when others then print error@1; end; print "[" error@1 "]";',
+     "caught B\n[]\nDIVIDE_BY_ZERO\n[]\n"),
+    ("error-after-failing-handler", 'begin begin raise a; exception when a then zz = 1 / 0; end; exception when divide_by_zero then print "dz " error@1; end; print "[" error@1 "]";', "dz DIVIDE_BY_ZERO\n[]\n"),
+    ("duplicate-clause-user", 'begin raise a; exception when a then print "first"; when a then print "second"; when others then print "others"; end;', "first\n"),
+    ("duplicate-clause-others", 'begin raise a; exception when others then print "first"; when others then print "second"; end;', "first\n"),
+    ("duplicate-clause-dz", 'begin zz = 1 / 0; exception when divide_by_zero then print "first"; when b then print "b"; when divide_by_zero then print "second"; end;', "first\n"),
+    ("duplicate-clause-oor", 'begin raise out_of_range; exception when b then print "b"; when out_of_range then print "first"; when out_of_range then print "second"; when others then print "o"; end;', "first\n"),
+    ("duplicate-clause-interleaved", 'for k in 1 to 2 loop begin if k == 1 then raise a; end if; raise b; exception when a then print "a1"; when b then print "b1"; when a then print "a2"; when b then print "b2"; end; end loop;', "a1\nb1\n"),
+    ("duplicate-clause-in-function", 'function fd(k) return string is begin begin if k then raise a; end if; raise c; exception when a then return "a1"; when c then return "c1"; when a then return "a2"; end; return "none"; end; print fd(true) fd(false);', "a1c1\n"),
+]
+
+
+def explicit7_gen(tier):
+    def gen():
+        n = 0
+        for tag, prog, want in EXPLICIT7:
+            for route in ("cpp", "capi", "capi2"):
+                ops = [op_ctx(), op_run("zz = 0;"), op_run(prog, route=route), op_out()]
+                yield Case("x%d" % n, ops, {"kind": "explicit7", "tag": tag, "prog": prog, "want": want, "route": route})
+                n += 1
+    return gen
+
+
 def check_names(case, res, vs):
     m = case.meta
     st = res["steps"]
@@ -254,6 +282,12 @@ def check(case, res):
     vs = generic_safety(case, res)
     if res.get("st") == "done" and case.meta.get("kind") == "names":
         return check_names(case, res, vs)
+    if res.get("st") == "done" and case.meta.get("kind") == "explicit7":
+        m_, st_ = case.meta, res["steps"]
+        out_ = unhex(st_[3].get("out", "")).decode("latin-1")
+        if st_[2].get("r") != "ok" or out_ != m_["want"]:
+            vs.append(Violation("explicit:%s" % m_["tag"], "%s (%s) gives %s, prints %r, expected %r" % (m_["prog"], m_["route"], st_[2].get("r"), out_, m_["want"]), case))
+        return vs, True
     if res.get("st") != "done":
         return vs, True
     m = case.meta
@@ -327,6 +361,7 @@ def run(tier):
     t0 = time.time()
     res = explore(PROP + "-" + tier, gen_factory(tier), check, chunk=150, deadline=t0 + (2400 if tier == "thorough" else 420))
     res.merge(explore(PROP + "-" + tier + "-names", names_gen(tier), check, chunk=50, deadline=t0 + 600))
+    res.merge(explore(PROP + "-" + tier + "-explicit", explicit7_gen(tier), check, chunk=10, deadline=t0 + 600))
     # the interactive statement loop of the bloc command has its own error handling: drive it for real
     from . import c19
     exe, env = c19.exe_env()
